@@ -54,6 +54,12 @@ def r12_1(ctx):
         ("Register[R]", lambda: reg_obj("Rs", "R", idx), ["Rs", "DUP(Rs)", "DUP(Rs)"]),
         ("Register[Rx]", lambda: reg_obj("Rx", "RW", idx), ["READ_REG(pkt, Rx_op, false)"] * 3),
         ("Register[W]", lambda: reg_obj("Rd", "W", idx), ["READ_REG(pkt, Rd_op, true)"] * 3),
+        # registers whose access class is settled by their first use (explicit / alias registers, with and without .new)
+        ("Register[alias, access unknown]", lambda: reg_obj("usr", "UNKNOWN", idx, is_alias=True), ["usr", "DUP(usr)", "DUP(usr)"]),
+        ("Register[explicit, access unknown]", lambda: reg_obj("R31", "UNKNOWN", idx, is_explicit=True), ["R31", "DUP(R31)", "DUP(R31)"]),
+        ("Register[explicit pair, access unknown]", lambda: reg_obj("R1:0", "UNKNOWN", idx, is_explicit=True), ["R1_0", "DUP(R1_0)", "DUP(R1_0)"]),
+        ("Register[alias .new, access unknown]", lambda: reg_obj("lr", "UNKNOWN", idx, is_alias=True, is_new=True), ["lr_new", "DUP(lr_new)", "DUP(lr_new)"]),
+        ("Register[PR]", lambda: reg_obj("Rss", "PR", idx), ["Rss", "DUP(Rss)", "DUP(Rss)"]),
     ]
     for name, mk, exp in cases:
         cls = name.split("[")[0]
@@ -62,7 +68,7 @@ def r12_1(ctx):
         outs, box = seq_calls(idx, fi, mk)
         got = [[normalise(to_text(x)) for x in o.value] if o.kind == "return" else outcome_text(o) for o in outs]
         ctx.check(f"{name}.il_read x3", got == [exp], str(exp), str(got), fn_where(idx, fi))
-        if name in ("GlobalVar", "PureExec", "Parameter", "Register[R]"):
+        if name in ("GlobalVar", "PureExec", "Parameter", "Register[R]", "Register[alias, access unknown]", "Register[explicit, access unknown]"):
             ctx.check(f"{name}: read counter grows by one per read", box["o"].fields.get("reads") == 3, "reads == 3", str(box["o"].fields.get("reads")), fn_where(idx, fi), nontrivial=False)
     # inlined PureExec re-renders through resolve_lets
     fi = idx.func("PureExec.il_read")
@@ -425,6 +431,12 @@ def r12_11(ctx):
                 for k, v in seen.items():
                     if v > 1:
                         dup.append(f"path [{p.guard_text()[:50]}] prints one {[U(c) for c in ast.walk(p.value) if id(c) == k][0]} {v} times")
+                # (c) every read that is made is printed: a read whose text is thrown away still counts as the operand's first use, so the
+                # occurrence that IS printed becomes DUP(x) and the raw pure is never consumed
+                printed = {id(c) for c in ast.walk(p.value)}
+                for e in p.events:
+                    if e.kind == "call" and isinstance(e.node, ast.Call) and isinstance(e.node.func, ast.Attribute) and e.node.func.attr == "il_read" and id(e.node) not in printed:
+                        dup.append(f"path [{p.guard_text()[:50]}] reads {U(e.node)} (line {e.lineno}) and does not print it")
             # (b) no read result stored in an attribute
             kept = [U(s_)[:60] for s_ in ast.walk(fi.node) if isinstance(s_, ast.Assign) and any(isinstance(t, ast.Attribute) for t in s_.targets)
                     and any(isinstance(c, ast.Call) and isinstance(c.func, ast.Attribute) and c.func.attr == "il_read" for c in ast.walk(s_.value))]
@@ -440,6 +452,9 @@ def r12_12(ctx):
 
     r14_5(ctx)
     branch_emits_both_arms(ctx)
+    from .c09 import literal_classes_are_inlined
+
+    literal_classes_are_inlined(ctx)  # a literal that is declared instead of inlined is initialised and never consumed by the effect that prints its value
 
 
 CONVERTING_HELPERS = {"promotion_cast", "init_a_cast", "cast_operands", "add_op"}
